@@ -98,7 +98,11 @@ Definition wf_op_ord (s : mst) (o : op) : bool :=
         passes through a regular file; for Rename the source exists and differs from the target. ---- *)
 Definition wf_below (s : mst) (o : op) : bool :=
   match o with
-  | Create p | Mkdir p _ | MkdirAll p _ => wf_name p && through_file s (normalize_path p)
+  | Create p | Mkdir p _ => wf_name p && through_file s (normalize_path p)
+  | MkdirAll p _ =>
+      (* in its clean spelling: os.MkdirAll splits the name itself and answers EEXIST, not ENOTDIR,
+         for a doubled separator right after the regular file ("/f//x"; finding F5, REPORT-c01p.md) *)
+      wf_name p && beqb p (normalize_path p) && through_file s (normalize_path p)
   | OpenFile p flag _ => wf_name p && flag_ok flag && flag_has flag o_create && through_file s (normalize_path p)
   | Rename p q =>
       let old := normalize_path p in
